@@ -114,6 +114,15 @@ def run(ctx, widen=False):
             else:
                 parts.append("".join(rng.choice(ascii_ok) for _ in range(rng.randint(1, 5))))
         dstrs.append("".join(parts))
+    # single dictionary words: the ones around every boundary of the two-character code (index 0, 159/160/161, multiples of 160,
+    # the last ones) and a stride through the rest (thorough: every word), alone and inside a sentence
+    n_w = len(words)
+    bidx = sorted(set([i for i in list(range(0, 6)) + list(range(155, 166)) + [160 * k + d for k in range(1, n_w // 160 + 1, 7) for d in (-1, 0, 1)]
+                       + list(range(n_w - 4, n_w)) if 0 <= i < n_w]))
+    boundary_words = [words[i] for i in bidx if all(c in ascii_ok for c in words[i])]
+    stride_words = [w for w in (words if thorough else words[::20]) if all(c in ascii_ok for c in w)]
+    dstrs += boundary_words + stride_words + ["the " + w + " of" for w in boundary_words[:40]]
+    ctx.bump("single dictionary words", len(boundary_words) + len(stride_words))
     dstrs += ["", " ", "a", "the", "the the", "Hello, World!", "hello world"]
     ctx.check_many("dict_roundtrip", dstrs)
     ctx.bump("dictionary strings", len(dstrs))
@@ -148,7 +157,7 @@ def run(ctx, widen=False):
     # dictionary compression: the DP model of `øD` (the object of dict_compress_roundtrip) against the element, and the facts
     # about the word list that the theorem takes as a hypothesis (at most 160^2 words: every code has two characters)
     nd = 400 if thorough else 60       # (the model looks every slice up in the 23 113-word list: ~30 ms per character)
-    for sdict in dstrs[-7:] + [x for x in dstrs[:nd] if len(x) <= (32 if thorough else 18)][: (60 if thorough else 14)]:
+    for sdict in dstrs[-7:] + [words[i] for i in (0, 1, 159, 160, 161, 320, n_w - 1) if all(c in ascii_ok for c in words[i])] + [x for x in dstrs[:nd] if len(x) <= (32 if thorough else 18)][: (60 if thorough else 14)]:
         lines.append("dictcomp\t" + vy.cps(sdict)); exp.append(vy.cps(optimal_compress(sdict, CTX)))
     lines.append("dictfacts\t")
     exp.append(f"{len(words)} {len(encoding.compression)} {dictionary.max_word_len}")
